@@ -19,7 +19,7 @@ from __future__ import annotations
 
 import ast
 
-from ..core import AnalysisError, assignments, call_name, names_in, short, walk_no_nested
+from ..core import AnalysisError, assignments, call_name, doc_sorted, names_in, short, walk_no_nested
 from ..util import calls_named, kwarg, norm, stored_paths
 from . import c05, c12, c14
 
@@ -128,7 +128,7 @@ def r2_dihedral(chk):
     chk.decide(sd == f"self.substructure(self.yield_bfs({a}[1], {a}[2]))", "C11.R2", f"{f.key}:moved-set", f.where(), sd,
                f"the moved atoms are `{sd}`; they must be exactly those reached from {a}[1] through {a}[2] (the far side of the bond)")
     calls = [c for c in walk_no_nested(f.node) if isinstance(c, ast.Call) and isinstance(c.func, ast.Attribute) and norm(c.func.value) == sub[0] and c.func.attr in ("translate", "transform")]
-    seq = [(c.func.attr, norm(c.args[0])) for c in sorted(calls, key=lambda c: (c.lineno, c.col_offset))]
+    seq = [(c.func.attr, norm(c.args[0])) for c in doc_sorted(f.node, calls)]
     if not any(k == "transform" for k, _ in seq):
         raise AnalysisError("rotate_dihedral: the moved part is not rotated through .transform(...) - unknown idiom")
     org = [n for n, vals in asg.items() for v in vals if isinstance(v, ast.AST) and norm(v) == f"self.get_atom_coord({a}[1])"]
@@ -159,7 +159,7 @@ def r3_alignment(chk):
             tr = [c for c in walk_no_nested(f.node) if isinstance(c, ast.Call) and norm(c.func) == "self.transform"]
             rets = [r for r in walk_no_nested(f.node) if isinstance(r, ast.Return)]
             ok2 = len(tr) == 1 and norm(tr[0].args[0]) == best_m and len(rets) == 1 and norm(rets[0].value) == best_r
-            cen = sorted((c for c in walk_no_nested(f.node) if isinstance(c, ast.Call) and norm(c.func) == "self.translate"), key=lambda c: c.lineno)
+            cen = doc_sorted(f.node, [c for c in walk_no_nested(f.node) if isinstance(c, ast.Call) and norm(c.func) == "self.translate"])
             ok2 = ok2 and cen and cen[0].lineno < un[0].lineno and norm(cen[0].args[0]).startswith("-")
             chk.decide(bool(ok2), "C11.R3", f"{f.key}:applies-kept-rotation-returns-kept-rmsd", f.where(tr[0] if tr else None), f"centre, fit, transform({best_m}), return {best_r}",
                        "align_to_ref_coords does not centre first, apply the kept rotation and return the kept RMSD")
